@@ -59,7 +59,7 @@ Theorem C05_hinv_initial : hinv hinv_ex_msg [] [].
 Proof. exact hinv_initial. Qed.
 
 (* ------------------------------------------------------------------ over op lists *)
-From CV Require Import Core.BuildOps Core.BuildInv Core.HeapOps Core.HeapValid.
+From CV Require Import Core.BuildOps Core.BuildInv Core.HeapOps Core.HeapCopy Core.HeapSteps Core.HeapValid.
 
 (* hinv implies the strict validity predicate (worklist terminates within its fuel; all regions
    collected are table regions, pairwise equal or disjoint) *)
@@ -67,22 +67,41 @@ Theorem C05_hinv_valid : forall m objs pads, hinv m objs pads -> valid_message (
 Proof. exact hinv_valid. Qed.
 Print Assumptions C05_hinv_valid.
 
+(* the copy paths inside one message: writePtr (any forceCopy; source = any view of the table:
+   struct, list of any kind, list member, empty struct, capability, null) and copyStruct
+   (destination = any struct view) keep the table invariant; the tables only grow.  Mutual
+   induction over the two functions: struct copy (fresh padded struct, copyStruct, pointer),
+   list copy (tag word, byte copy or element-wise copyStruct, pointer), data / pointer-loop /
+   zero-loop phases of copyStruct; every pointer a copy reads is a view again (read_slot) *)
+Theorem C05_copy_all : forall f,
+  (forall w objs pads q src fc w',
+     tinv w objs pads -> In q ((0, 0) :: flat_map slots objs) -> view objs src ->
+     write_ptr f true w (fst q) (snd q) InDst src fc = Ok w' -> nsegs (w_dst w') < B32 ->
+     exists eo ep, tinv w' (objs ++ eo) (pads ++ ep)) /\
+  (forall w objs pads dst src w',
+     tinv w objs pads -> view objs dst -> (p_valid dst = true -> p_kind dst = KStruct) ->
+     view objs src -> (p_valid src = true -> p_kind src = KStruct) ->
+     copy_struct f true w dst InDst src = Ok w' -> nsegs (w_dst w') < B32 ->
+     exists eo ep, tinv w' (objs ++ eo) (pads ++ ep)).
+Proof. exact copy_all. Qed.
+Print Assumptions C05_copy_all.
+
 (* every step of the sub-language keeps the invariant, "every valid pool handle is a view of
    the object table" and "the table holds handle cores" *)
 Theorem C05_step_hinv : forall e st objs pads o st' out,
-  sinv st objs pads -> sub_op o = true -> plain_src st o -> bstep e st o = (Some st', out) ->
+  sinv st objs pads -> sub_op o = true -> bstep e st o = (Some st', out) ->
   nsegs (w_dst (st_w st')) < 4294967296 ->
   exists objs' pads', sinv st' objs' pads'.
 Proof. exact bstep_hinv. Qed.
 Print Assumptions C05_step_hinv.
 
-(* C05 for the sub-language: all arena configurations with a root word, all programs accepted
-   by the executable predicate sub_prog, all reachable states (fewer than 2^32 segments):
+(* C05 for the builder inside one message: all arena configurations with a root word, all
+   programs accepted by the executable predicate sub_prog (every op of the interpreter; the
+   predicate only bounds arguments, e.g. struct sizes in the Go ranges), all reachable states (fewer than 2^32 segments):
    the message under construction passes the strict validity predicate *)
 Theorem C05_heap_inv_sublang : forall a cfgd cfgs ncaps fuel src ops m,
   arena_spec_wf a -> root_cap_ok a -> create a (init_rlimit cfgd) = Ok m -> sub_prog ops = true ->
   let st0 := mkBSt (mkW m src (init_rlimit cfgs)) [] in
-  plain_run (mkEnv cfgd cfgs ncaps fuel) st0 ops ->
   Forall seg_bound (bstates (mkEnv cfgd cfgs ncaps fuel) st0 ops) ->
   Forall (fun st => valid_message (bm_data (w_dst (st_w st))) = VOk) (bstates (mkEnv cfgd cfgs ncaps fuel) st0 ops).
 Proof. exact heap_inv_sublang_valid. Qed.
@@ -101,7 +120,6 @@ Proof. exact sublang_example. Qed.
 Theorem C05_sublang_example2 :
   create (ArMulti None) (init_rlimit (mkCfg 0 0 true true)) = Ok ex2_m /\
   sub_prog ex2_ops = true /\
-  plain_run ex2_env ex2_st0 ex2_ops /\
   Forall seg_bound (bstates ex2_env ex2_st0 ex2_ops) /\
-  map (fun st => valid_message (bm_data (w_dst (st_w st)))) (bstates ex2_env ex2_st0 ex2_ops) = repeat VOk 24.
+  map (fun st => valid_message (bm_data (w_dst (st_w st)))) (bstates ex2_env ex2_st0 ex2_ops) = repeat VOk 33.
 Proof. exact sublang_example2. Qed.
